@@ -23,7 +23,11 @@ EXPLANATION = (
     "the returned delta expression is evaluated numerically for every assignment of the orbitals of a 2 occ + 2 virt "
     "model to the indices (a fresh index is summed over its space) and must equal <Phi|p q|Phi> computed by applying "
     "the operators to the reference determinant; a row whose expectation value vanishes identically must return the "
-    "canonical zero (the recursion prunes on it); spin-labelled and non-fermionic operators must be refused. "
+    "canonical zero (the recursion prunes on it); an additional index (general-general rows) may be any index of the "
+    "right space by value, but it has to come from the index registry (Indices().get_generic_indices: unique printed "
+    "name) - a new Index object with a fixed name is reported (F34); KroneckerDelta is modelled as sympy/adcgen "
+    "evaluate it on construction (1 for identical indices, 0 for occupied/virtual); spin-labelled and non-fermionic "
+    "operators must be refused. "
     "R01b: _contract_operator_string evaluated on operator tokens (n=2,4,6; 8 thorough) with the contraction left "
     "symbolic: the result, expanded into products, is every complete pairing exactly once with sign (-1)^crossings, "
     "the first argument of a contraction being the left operator; bookkeeping by position for repeated (equal) "
@@ -43,15 +47,23 @@ EXPLANATION = (
     "whose block is excluded for that name, each once; empty rules (None, {}) return the input; non-Expr input refused; "
     "Rules.is_empty truth table; wicks evaluated on abstract sympy expressions (NO / bare operator, Add, Mul with "
     "0/1/2/4 operators and 0/2 commuting factors, symbol, tensor) x (rules None/given) x (delta flag): the result is "
-    "[rules.apply(Expr(.)).sympy] [evaluate_deltas(., target_idx=None)] (commuting part x "
+    "[rules.apply(Expr(.)).sympy] [evaluate_deltas(.) exactly when requested] (commuting part x "
     "_contract_operator_string(operators in order)) with a type discipline on the layers (Expr wraps a plain object "
     "without assumptions, apply maps container to container outside the delta evaluation, a plain object is "
-    "returned), zero for a single operator / NO / bare operator, the term-wise sum of wicks(term, same rules, same "
-    "flag) for Add, doit(wicks=True) before the case split, foreign rules objects refused. R01e: the whole pipeline "
-    "wicks -> _contract_operator_string -> prefilter -> _contraction evaluated end to end on A * operator string "
-    "(all 6+36+216+1296 strings of one to four operators over kind x space, strings with repeated operators or "
-    "indices, six operators in a 3+3 orbital model) and compared numerically with 3 * the brute-force expectation "
-    "value for every orbital assignment.")
+    "returned), zero for a single operator / NO / bare operator / a power of an operator alone or as a factor of a "
+    "longer string (F42: sympy merges adjacent identical operators into Pow), the term-wise sum of wicks(term, same "
+    "rules, same flag) for Add, doit(wicks=True) before the case split, foreign rules objects refused. R01e: the "
+    "whole pipeline wicks -> _contract_operator_string -> prefilter -> _contraction evaluated end to end on a Mul "
+    "built as sympy builds it (commuting factors first, adjacent identical operators merged into a power): A * "
+    "operator string (all 6+36+216+1296 strings of one to four operators over kind x space, strings with repeated "
+    "operators or indices incl. adjacent identical ones, six operators in a 3+3 orbital model) compared numerically "
+    "with 3 * the brute-force expectation value for every orbital assignment; and with simplify_kronecker_deltas=True "
+    "(F29) t_{subset of the operator indices} * operator string for all pairs, the four-operator strings that have a "
+    "complete pairing (and a sample of the others) and two six-operator strings, where evaluate_deltas is a reference "
+    "model of its documented contract (explicit targets, else Einstein convention): the indices on t are contracted, "
+    "all other operator indices are target indices, and the result - summed over every non-target index it contains - "
+    "must equal sum_contracted t * <Phi|string|Phi> for every assignment of the target indices, so a target index that "
+    "is eliminated or renamed by the delta evaluation is a violation whatever the call looks like.")
 ASSUMPTIONS = [
     "sympy's NO.doit(wicks=True)/expand, Mul/Add and KroneckerDelta algebra are trusted (modelled as doit/expand "
     "giving a sum of products, Mul/Add as product/sum, KroneckerDelta(i, j) as [orbital(i) == orbital(j)], S.Zero as "
@@ -59,11 +71,15 @@ ASSUMPTIONS = [
     "equality with the Fermi-vacuum expectation value is decided for operator strings of at most 4 (a few of 6 and "
     "8) operators in a model with 2 (3) occupied and 2 (3) virtual orbitals; longer strings are covered structurally "
     "by R01b (signed pairings up to n=8) only",
-    "a fresh Index created by the contraction of two general indices is taken to be summed over its space "
-    "(above_fermi/below_fermi); its name is not checked",
-    "evaluate_deltas and Rules.apply are uninterpreted inside wicks (evaluate_deltas itself is not decided here, "
-    "Rules.apply by its own decision table); inside wicks a string with an odd number of operators is taken to have "
+    "an additional index created by the contraction of two general indices is taken to be summed over its space; "
+    "Indices().get_generic_indices(space=n) is modelled as n new registered indices of that space",
+    "evaluate_deltas is not decided here: in R01d it is uninterpreted, in R01e it is replaced by a reference model of "
+    "its contract (killable index substituted when contracted, preferred one when both hold equal information, a "
+    "delta of two contracted indices that occur nowhere else kept); Rules.apply is uninterpreted inside wicks and "
+    "decided by its own table; inside the R01d scenarios a string with an odd number of operators is taken to have "
     "no complete contraction (decided for the code by R01c/R01e)",
+    "in the delta-evaluation family of R01e every operator carries its own index (with an index on two operators the "
+    "Einstein reading of the input is ambiguous)",
     "not required any more: that _contract_operator_string *consults* the prefilter (an optimisation without "
     "influence on the value: R01c decides its soundness, R01e the composed result) and the source-level shape of "
     "the commuting/non-commuting partition loop (decided through the evaluated product instead)",
@@ -92,8 +108,31 @@ class _Op(Obj):
         return hash(self.attrs["label"])
 
 
+class _Idx(Obj):
+    """Index record; as a term it carries name and space (idx(name, space))."""
+
+    @property
+    def term(self):
+        return T("idx", self.attrs["name"], self.attrs["space"])
+
+
+class _Tens(Obj):
+    """Commuting tensor with indices; as a term tens(name, (indices))."""
+
+    @property
+    def term(self):
+        return T("tens", self.attrs["name"], tuple(_term(i) for i in self.attrs["idx"]))
+
+
 def _index(name, space, spin=""):
-    o = Obj(None, name, space=space, spin=spin)
+    o = _Idx(None, name, space=space, spin=spin)
+    o.attrs["name"] = name
+    return o
+
+
+def _indexed_tensor(name, idx):
+    o = _Tens(None, name, _classes=("NonSymmetricTensor", "SymbolicTensor", "Expr", "Basic"), is_commutative=True,
+              is_number=False, idx=tuple(idx), args=())
     o.attrs["name"] = name
     return o
 
@@ -104,6 +143,12 @@ def _operator(kind, idx, pos=None, label=None):
     return _Op(None, f"{kind}[{idx.attrs['name']}]" + ("" if pos is None else f"@{pos}"), _classes=classes, args=[idx],
                state=idx, label=label if label is not None else (kind, idx.attrs["name"]), pos=pos, is_commutative=False,
                is_number=False, func=sym(kind))
+
+
+def _op_power(op, n):
+    """sympy's representation of n adjacent identical operators: Pow(op, n) (not commutative)."""
+    return Obj(None, f"{op.name}**{n}", _classes=("Pow", "Expr", "Basic"), base=op, exp=n, args=(op, n), is_commutative=False,
+               is_number=False, _power_of=op)
 
 
 def _tensor(name):
@@ -119,18 +164,150 @@ def _S():
     return Obj(None, "S", Zero=0, One=1, NegativeOne=-1, Half=Fraction(1, 2))
 
 
+RANK = {"occ": 1, "virt": 1, "general": 0}
+
+
+def _space_of(x):
+    if isinstance(x, T) and x.op == "idx":
+        return x.args[1]
+    if isinstance(x, T) and x.op == "fresh":
+        return x.args[1]
+    return None
+
+
+def _delta(a, b):
+    """KroneckerDelta(a, b) as sympy/adcgen evaluate it on construction: 1 for identical indices, 0 for an occupied and
+    a virtual index, otherwise the (symmetric) delta object."""
+    a, b = _term(a), _term(b)
+    if a == b:
+        return 1
+    sa, sb = _space_of(a), _space_of(b)
+    if {sa, sb} == {"occ", "virt"}:
+        return 0
+    return T("delta", *sorted((a, b), key=repr))
+
+
+def _index_atoms(x):
+    """Indices (idx / fresh terms) occurring in a value: ``x.atoms(Index)``."""
+    if isinstance(x, _Op):
+        return {_term(i) for i in x.attrs["args"]}
+    if isinstance(x, Obj):
+        if "idx" in x.attrs:
+            return {_term(i) for i in x.attrs["idx"]}
+        if "base" in x.attrs:
+            return _index_atoms(x.attrs["base"])
+        return set()
+    return {t for t in subterms(x) if t.op in ("idx", "fresh")}
+
+
+def _make_args(kind, x):
+    cls = {"mul": "Mul", "add": "Add"}[kind]
+    if isinstance(x, Obj):
+        return list(x.attrs["args"]) if cls in x.attrs.get("_classes", ()) else [x]
+    if isinstance(x, T) and x.op == kind:
+        return list(x.args)
+    return [x]
+
+
+def _subs(t, old, new):
+    """``t.subs(old, new)`` for index terms; deltas are re-evaluated."""
+    def f(x):
+        if x == old:
+            return new
+        if x.op == "delta":
+            return _delta(x.args[0], x.args[1])
+        return x
+    from ..terms import rebuild
+    return rebuild(t, f)
+
+
+def _ref_evaluate_deltas(expr, target_idx):
+    """Reference model of func.evaluate_deltas (its documented contract, written independently): in every product the
+    indices that are not target indices (given, else Einstein convention: indices on a single object) are contracted;
+    a delta with a contracted index is used to substitute that index - the killable one (less or equal information:
+    general < occ/virt), else the preferred one if both hold the same information; a delta whose indices are both
+    contracted and occur nowhere else stays."""
+    expr = strip(_term(expr), mcalls=TRANSPARENT_MCALLS)
+    out = []
+    for c, fs in expand_products(expr):
+        out.append(t_mul(c, _ref_deltas_product(t_mul(*fs) if fs else 1, target_idx)))
+    return t_add(*out) if out else 0
+
+
+def _objects(t):
+    return [f for f in (t.args if isinstance(t, T) and t.op == "mul" else [t]) if not is_num(f)]
+
+
+def _ref_deltas_product(t, target_idx):
+    for _ in range(64):
+        if not isinstance(t, T):
+            return t
+        objs = _objects(t)
+        if target_idx is None:
+            count = {}
+            for o in objs:
+                for s in _index_atoms(o):
+                    count[s] = count.get(s, 0) + 1
+            targets = {s for s, k in count.items() if k == 1}
+        else:
+            targets = set(target_idx)
+        for d in objs:
+            if d.op != "delta":
+                continue
+            a, b = d.args
+            ra, rb = RANK.get(_space_of(a), 0), RANK.get(_space_of(b), 0)
+            pref, kill = (a, b) if ra >= rb else (b, a)
+            others = set()
+            for o in objs:
+                if o is not d:
+                    others |= _index_atoms(o)
+            if kill not in targets:
+                if pref not in targets and pref not in others and kill not in others:
+                    continue
+                t = _subs(t, kill, pref)
+                break
+            if pref not in targets and ra == rb:
+                t = _subs(t, pref, kill)
+                break
+        else:
+            return t
+    raise AnalysisError("C01: reference delta evaluation does not terminate")
+
+
 def _hooks(**extra):
-    """Model of the sympy primitives the Wick code builds its results from."""
+    """Model of the sympy / adcgen primitives the Wick code builds its results from."""
     def index(sx, a, kw):
         flags = sorted(k for k, v in kw.items() if v)
         space = {(): "general", ("above_fermi",): "virt", ("below_fermi",): "occ"}.get(tuple(flags), "?" + ",".join(flags))
         sx.fresh_n += 1
-        return T("fresh", sx.fresh_n, space)
+        name = a[0] if a else kw.get("name")
+        return T("fresh", sx.fresh_n, space, ("Index", name if isinstance(name, str) else "<computed>"))
+
+    def registry(sx, a, kw):
+        return Obj(None, "index_registry", _registry=True)
+
+    def generic_indices(sx, a, kw):
+        # Indices().get_generic_indices(occ=2, virt_a=1, ...): registered indices with names that are not in use
+        if not (a and isinstance(a[0], Obj) and a[0].attrs.get("_registry")) or len(a) > 1:
+            return NotImplemented
+        out = {}
+        for key, n in kw.items():
+            if not isinstance(n, int):
+                return NotImplemented
+            if n == 0:
+                continue
+            space, _, spin = key.partition("_")
+            lst = []
+            for _k in range(n):
+                sx.fresh_n += 1
+                lst.append(T("fresh", sx.fresh_n, space if not spin else f"?{key}", ("registry", "generic")))
+            out[(space, spin)] = lst
+        return out
 
     def delta(sx, a, kw):
         if len(a) != 2 or kw:
             return NotImplemented
-        return T("delta", _term(a[0]), _term(a[1]))
+        return _delta(a[0], a[1])
 
     def add(sx, a, kw):
         return t_add(*[_term(x) for x in a])
@@ -144,7 +321,20 @@ def _hooks(**extra):
             return sym(a[0].attrs["_classes"][0])
         return NotImplemented
 
-    h = {"S": _S(), "Index": index, "KroneckerDelta": delta, "Add": add, "Mul": mul, "type": type_}
+    def atoms(sx, a, kw):
+        if len(a) == 2 and (isinstance(a[0], (Obj, T)) or is_num(a[0])):
+            return set() if is_num(a[0]) else _index_atoms(a[0])
+        return NotImplemented
+
+    def has(sx, a, kw):
+        if len(a) == 2 and (isinstance(a[0], (Obj, T)) or is_num(a[0])):
+            return False if is_num(a[0]) else _term(a[1]) in _index_atoms(a[0])
+        return NotImplemented
+
+    h = {"S": _S(), "Index": index, "KroneckerDelta": delta, "Add": add, "Mul": mul, "type": type_, "atoms": atoms,
+         "has": has, "Indices": registry, "get_generic_indices": generic_indices,
+         "Mul.make_args": lambda sx, a, kw: _make_args("mul", a[0]) if len(a) == 1 else NotImplemented,
+         "Add.make_args": lambda sx, a, kw: _make_args("add", a[0]) if len(a) == 1 else NotImplemented}
     h.update(extra)
     return h
 
@@ -153,6 +343,23 @@ CLASS_ALIAS = {"AnnihilateFermion": "F", "CreateFermion": "Fd"}
 CLASS_NAMES = {"F", "Fd", "NO", "FermionicOperator", "Mul", "Add", "Pow", "Symbol", "KroneckerDelta", "AntiSymmetricTensor",
                "SymmetricTensor", "NonSymmetricTensor", "Amplitude", "SymbolicTensor", "Rational", "Integer", "Number"} | \
     set(CLASS_ALIAS)
+
+
+def _is_index_term(t):
+    return isinstance(t, T) and t.op in ("idx", "fresh")
+
+
+def _index_identity(atom):
+    """Two index terms are the same index iff they are the same term."""
+    if atom.op == "cmp" and atom.args[0] in ("is", "==", "is not", "!="):
+        a, b = atom.args[1], atom.args[2]
+        if all(isinstance(x, T) and x.op in ("idx", "fresh") for x in (a, b)):
+            return (a == b) if atom.args[0] in ("is", "==") else (a != b)
+    if atom.op == "cmp" and atom.args[0] in ("in", "not in") and _is_index_term(atom.args[1]) \
+            and isinstance(atom.args[2], (frozenset, tuple, list)) and all(_is_index_term(x) for x in atom.args[2]):
+        r = atom.args[1] in atom.args[2]
+        return r if atom.args[0] == "in" else not r
+    return None
 
 
 def _class_identity(atom):
@@ -216,26 +423,29 @@ class _Uneval(Exception):
     pass
 
 
-def _prepare(v, orbs):
-    """Products of an evaluated, operator-free result with the fresh indices each of them sums over."""
+def _prepare(v, orbs, free=None):
+    """Products of an evaluated, operator-free result with the indices each of them sums over: the fresh indices and,
+    when ``free`` (names of the target indices) is given, every operator index that is not free."""
     v = strip(_term(v), mcalls=TRANSPARENT_MCALLS)
     out = []
     for c, fs in expand_products(v):
-        fresh = sorted({x for f in fs for x in subterms(f) if x.op == "fresh"}, key=repr)
-        for x in fresh:
+        summed = {x for f in fs for x in subterms(f) if x.op == "fresh" or
+                  (x.op == "idx" and free is not None and x.args[0] not in free)}
+        summed = sorted(summed, key=repr)
+        for x in summed:
             if x.args[1] not in orbs:
-                raise _Uneval(f"fresh index with the assumptions {x.args[1]}")
-        out.append((Fraction(c), fs, fresh))
+                raise _Uneval(f"index with the assumptions {x.args[1]}")
+        out.append((Fraction(c), fs, summed))
     return out
 
 
 def _value(prods, asg, orbs):
-    """Number the result stands for: ``asg`` maps index names to orbitals and tensor symbols to numbers; every
-    fresh index is summed over the orbitals of its space within the product it occurs in."""
+    """Number the result stands for: ``asg`` maps the names of free indices to orbitals and tensor symbols to numbers;
+    every other index is summed over the orbitals of its space within the product it occurs in."""
     total = Fraction(0)
-    for c, fs, fresh in prods:
-        for combo in itertools.product(*[orbs[x.args[1]] for x in fresh]):
-            loc = dict(zip(fresh, combo))
+    for c, fs, summed in prods:
+        for combo in itertools.product(*[orbs[x.args[1]] for x in summed]):
+            loc = dict(zip(summed, combo))
             p = c
             for f in fs:
                 p *= _factor(f, asg, loc)
@@ -245,12 +455,22 @@ def _value(prods, asg, orbs):
     return total
 
 
+def _tensor_value(name, orbitals):
+    """Deterministic integer 'tensor element' (no symmetry, no zeros)."""
+    v = sum(ord(ch) for ch in name)
+    for k, o in enumerate(orbitals):
+        v = v * 7 + (k + 2) * (o + 1)
+    return 1 + v % 13
+
+
 def _factor(f, asg, loc):
     if is_num(f):
         return Fraction(f)
     if isinstance(f, T):
         if f.op == "delta":
             return Fraction(1 if _orb(f.args[0], asg, loc) == _orb(f.args[1], asg, loc) else 0)
+        if f.op == "tens":
+            return Fraction(_tensor_value(f.args[0], [_orb(x, asg, loc) for x in f.args[1]]))
         if f.op == "sym" and f.args[0] in asg:
             return Fraction(asg[f.args[0]])
         if f.op == "pow" and isinstance(f.args[1], int) and f.args[1] >= 0:
@@ -268,28 +488,37 @@ def _factor(f, asg, loc):
 
 
 def _orb(x, asg, loc):
-    if isinstance(x, T) and x.op == "fresh":
+    if isinstance(x, T) and x in loc:
         return loc[x]
-    if isinstance(x, T) and x.op == "sym" and x.args[0] in asg:
+    if isinstance(x, T) and x.op == "idx" and x.args[0] in asg:
         return asg[x.args[0]]
-    raise _Uneval(f"Kronecker delta on `{show(x)[:80]}`, which is neither an operator index nor a fresh index")
+    raise _Uneval(f"`{show(x)[:80]}` is neither an operator index nor a fresh index")
 
 
-def _compare_numeric(value, ops, norb, factor=1, tensors=None):
+def _compare_numeric(value, ops, norb, factor=1, tensors=None, tensor=None):
     """First orbital assignment on which the evaluated result differs from the expectation value (None if equal).
-    ``ops`` = [(kind, index name, space)]; equal index names share the orbital."""
+    ``ops`` = [(kind, index name, space)]; equal index names share the orbital. ``tensor`` = (name, index names): a
+    commuting factor tensor_{names} in front of the string; its indices are contracted (summed), the other operator
+    indices are the target indices."""
     orbs = _orbitals(norb)
     names = []
     for _, nm, sp in ops:
         if (nm, sp) not in names:
             names.append((nm, sp))
+    contracted = [x for x in names if tensor is not None and x[0] in tensor[1]]
+    free = [x for x in names if x not in contracted]
     try:
-        prods = _prepare(value, orbs)
+        prods = _prepare(value, orbs, None if tensor is None else {nm for nm, _ in free})
     except _Uneval as e:
         return f"result cannot be evaluated: {e}"
-    for combo in itertools.product(*[orbs[sp] for _, sp in names]):
-        asg = {nm: o for (nm, _), o in zip(names, combo)}
-        want = factor * _vev([(k, asg[nm]) for k, nm, _ in ops], norb)
+    for combo in itertools.product(*[orbs[sp] for _, sp in free]):
+        asg = {nm: o for (nm, _), o in zip(free, combo)}
+        want = 0
+        for inner in itertools.product(*[orbs[sp] for _, sp in contracted]):
+            a2 = dict(asg)
+            a2.update({nm: o for (nm, _), o in zip(contracted, inner)})
+            tv = 1 if tensor is None else _tensor_value(tensor[0], [a2[nm] for nm in tensor[1]])
+            want += factor * tv * _vev([(k, a2[nm]) for k, nm, _ in ops], norb)
         full = dict(asg)
         full.update(tensors or {})
         try:
@@ -297,8 +526,8 @@ def _compare_numeric(value, ops, norb, factor=1, tensors=None):
         except _Uneval as e:
             return f"result cannot be evaluated: {e}"
         if got != want:
-            return (f"orbitals {asg} (occupied: 0..{norb - 1}, virtual: {norb}..{2 * norb - 1}): result has the value {got}, "
-                    f"the expectation value is {want}")
+            return (f"target orbitals {asg} (occupied: 0..{norb - 1}, virtual: {norb}..{2 * norb - 1}): result has the value "
+                    f"{got}, the expectation value{' summed over the contracted indices' if contracted else ''} is {want}")
     return None
 
 
@@ -331,6 +560,15 @@ def r01a(ctx):
             n += 1
             ctx.check(rule, fn, why is None, f"{label}: value equals <Phi|p q|Phi> for every orbital assignment",
                       f"contraction table row {label}: {why}", key=f"row {label}")
+            # provenance of an additional index: from the index registry (unique printed name) - a new Index object with
+            # a fixed name is printed like the registry index (and like every other such object) of that name
+            fresh = sorted({x for o in outs if o.kind == "return" for x in subterms(_term(o.value)) if x.op == "fresh"}, key=repr)
+            if fresh:
+                fixed = [x.args[2][1] for x in fresh if x.args[2][0] == "Index" and x.args[2][1] != "<computed>"]
+                ctx.check(rule, fn, not fixed, f"{label}: the additional index is a registered generic index",
+                          f"contraction table row {label}: the additional index is created as Index({fixed[0] if fixed else ''!r}, ...) "
+                          "outside the index registry with a fixed name: it cannot be told from the registry index (or any other "
+                          "such object) of that name in the printed result", key=f"fresh index {label}")
             # canonical zero: the recursion prunes on it and an un-evaluated delta_{occ,virt} would survive when the
             # delta evaluation is not requested
             orbs = _orbitals(2)
@@ -460,9 +698,10 @@ class _Generic:
         raise _Uneval(show(t))
 
     def __call__(self, sx, atom):
-        r = _class_identity(atom)
-        if r is not None:
-            return r
+        for decide in (_class_identity, _index_identity):
+            r = decide(atom)
+            if r is not None:
+                return r
         try:
             if atom.op == "cmp" and atom.args[0] in ("==", "!=", "<", "<=", "is", "is not"):
                 a, b = self.number(atom.args[1]), self.number(atom.args[2])
@@ -815,6 +1054,11 @@ class _WicksScenario:
                     is_commutative=False, is_number=False)
         elif self.kind == "Mul":
             X = Obj(None, "X", _classes=("Mul", "Expr", "Basic"), args=args, is_commutative=commut, is_number=False)
+        elif self.kind == "PowOp":    # sympy merges adjacent identical operators: a_p a_p -> Pow(a_p, 2)
+            X = _op_power(_operator("F", _index("x0", "general")), 2)
+        elif self.kind == "MulPow":   # ... also inside a longer string: A0 * a_p**2 * a+_q * a_r ...
+            args = list(cs) + [_op_power(ops[0], 2)] + ops[1:]
+            X = Obj(None, "X", _classes=("Mul", "Expr", "Basic"), args=args, is_commutative=False, is_number=False)
         elif self.kind in KINDS:     # a bare operator: doit/expand give the operator itself
             X = Obj(None, "X", _classes=(self.kind, "FermionicOperator", "SqOperator", "Expr", "Basic"),
                     args=[_index("x0", "general")], is_commutative=False, is_number=False)
@@ -921,6 +1165,7 @@ def _wicks_run(ctx, scen, rules, flag):
     sx.on_start = _assume_not_none("rules", "expr", "X", "D")
     sx.oracle = _Generic(lambda t: t.op == "call" and t.args[0] == "_contract_operator_string" or
                          t.op == "sym" and str(t.args[0]).startswith("A"))
+    sx.concrete_key = _is_index_term
 
     def args():
         r = None if rules is None else Obj("rules:Rules", "rules") if rules == "rules" else \
@@ -943,6 +1188,16 @@ def r01d_wicks(ctx):
             ctx.check(rule, w, all(o.kind == "return" and _is_zero(_peel(o.value)[1]) for o in outs),
                       f"{top[0]} alone gives zero", f"wicks of a bare {top[0]} object gives {outs[:2]}, expected zero",
                       key=f"bare {top[0]}")
+    # a power of an operator (adjacent identical operators) vanishes: alone and as a factor of a longer string
+    for kind, k, c in (("PowOp", 0, 0), ("MulPow", 1, 0), ("MulPow", 2, 1), ("MulPow", 3, 2)):
+        for rules, flag in combos:
+            scen = _WicksScenario(kind, k, c)
+            outs = _wicks_run(ctx, scen, rules, flag)
+            n += 1
+            ctx.check(rule, w, all(o.kind == "return" and _is_zero(_peel(o.value)[1]) for o in outs),
+                      "a squared operator gives zero",
+                      f"wicks of {'a squared operator' if kind == 'PowOp' else f'a product of a squared operator, {k - 1} more operator(s) and {c} commuting factor(s)'}"
+                      f" gives {outs[:2]}, expected zero (a_p a_p = 0)", key=f"operator power {kind} ops={k}")
     # Mul / other
     cases = [("Mul", k, c) for k in (0, 1, 2, 4) for c in (0, 2)] + [("Symbol", 0, 0), ("AntiSymmetricTensor", 0, 0)]
     for kind, k, c in cases:
@@ -988,13 +1243,14 @@ def r01d_wicks(ctx):
                     ctx.check(rule, w, not missing and not surplus, fact,
                               f"wicks of {what}: the value is {show(core)[:200]}, expected the expanded expression itself",
                               key=f"no operators {kind}")
-                # 2. delta evaluation: only on request, only for contracted strings, Einstein targets (target_idx None)
+                # 2. delta evaluation: exactly on request (which target indices are protected is decided numerically
+                # by R01e, not by the shape of the call)
                 dl = [x for x in layers if x[0] == "deltas"]
-                want_d = [("deltas", None)] if (flag and kind == "Mul" and k >= 2) else []
-                okd = dl == want_d or (flag and not want_d and dl == [("deltas", None)])
-                ctx.check(rule, w, okd, "deltas evaluated exactly on request, Einstein targets",
-                          f"wicks of {what}: evaluate_deltas layers {[show(x[1]) for x in dl]} (expected "
-                          f"{'one with target_idx=None' if want_d else 'none'})", key="delta flag")
+                need = flag and kind == "Mul" and k >= 2
+                okd = len(dl) == (1 if need else 0) or (flag and not need and len(dl) == 1)
+                ctx.check(rule, w, okd, "deltas evaluated exactly on request",
+                          f"wicks of {what}: {len(dl)} evaluate_deltas layer(s) around the result (expected "
+                          f"{'one' if need else 'none'})", key="delta flag")
                 # 3. the rules
                 al = [x for x in layers if x[0] == "apply"]
                 final, problem = _layer_types(layers)
@@ -1050,9 +1306,13 @@ def _pkey(c, fs):
 # R01e: end to end against the brute-force expectation value
 
 
-def _e2e(ctx, string, norb, repeat=None):
-    """wicks(A * o_1 ... o_n) evaluated through the whole pipeline. ``string`` = [(kind, space)];
-    ``repeat`` maps a position to an earlier position whose operator object is reused."""
+def _e2e(ctx, string, norb, repeat=None, tensor=None, flag=False):
+    """wicks(c * o_1 ... o_n) evaluated through the whole pipeline (contraction, prefilter, contraction table, and - for
+    ``flag`` - the delta evaluation by a reference model of evaluate_deltas). ``string`` = [(kind, space)]; ``repeat``
+    maps a position to an earlier position whose operator object is reused; the commuting factor c is the scalar A
+    (``tensor`` None) or a tensor t carrying the indices of the operators at the positions ``tensor`` (those indices are
+    contracted, the others are the target indices of the expression). The Mul is built as sympy builds it: commuting
+    factors first, adjacent identical operators merged into a power."""
     holder = {}
 
     def build():
@@ -1069,10 +1329,20 @@ def _e2e(ctx, string, norb, repeat=None):
                 i = _index(f"x{k}", sp)
             idx[k] = i
             ops.append(_operator(kind, i))
-        A = _tensor("A")
-        args = ops[:1] + [A] + ops[1:]
+        c = _tensor("A") if tensor is None else _indexed_tensor("t", [ops[k].attrs["args"][0] for k in tensor])
+        nc = []
+        for o in ops:
+            if nc and (nc[-1] == o or (isinstance(nc[-1], Obj) and nc[-1].attrs.get("_power_of") == o)):
+                prev = nc.pop()
+                nc.append(_op_power(o, prev.attrs["exp"] + 1 if "_power_of" in prev.attrs else 2))
+            else:
+                nc.append(o)
+        args = [c] + nc
+        if len(args) == 1:
+            args = args + []
         X = Obj(None, "X", _classes=("Mul", "Expr", "Basic"), args=args, is_commutative=False, is_number=False)
         holder["ops"] = [(type_of(o), o.attrs["args"][0].attrs["name"], o.attrs["args"][0].attrs["space"]) for o in ops]
+        holder["tensor"] = None if tensor is None else ("t", [ops[k].attrs["args"][0].attrs["name"] for k in tensor])
         return Obj(None, "expr", _done=Obj(None, "D", _expanded=X), _classes=("Mul", "Expr", "Basic"), is_commutative=False,
                    is_number=False, args=args)
 
@@ -1085,19 +1355,36 @@ def _e2e(ctx, string, norb, repeat=None):
     def expand(sx, a, kw):
         if is_num(a[0]):
             return a[0]
+        if isinstance(a[0], T):          # sum of products
+            return t_add(*[t_mul(c_, *fs) for c_, fs in expand_products(strip(a[0], mcalls=TRANSPARENT_MCALLS))])
         return a[0].attrs["_expanded"] if isinstance(a[0], Obj) and "_expanded" in a[0].attrs else NotImplemented
 
-    sx = Symex(ctx.model, what="wicks (end to end)", hooks=_hooks(doit=doit, expand=expand), max_paths=64,
-               inline=_inline_except("func:evaluate_deltas", "rules:Rules.apply"))
+    fn_ed = ctx.model.fn(f"{FUNC}:evaluate_deltas")
+
+    def deltas(sx, a, kw):
+        b = sx.bind(fn_ed, a, kw, fill_defaults=True)
+        tg = b.get("target_idx")
+        if isinstance(tg, str):
+            return NotImplemented
+        if tg is not None:
+            tg = [_term(x) for x in tg]
+        return _ref_evaluate_deltas(b["expr"], tg)
+
+    sx = Symex(ctx.model, what="wicks (end to end)", hooks=_hooks(doit=doit, expand=expand, evaluate_deltas=deltas),
+               max_paths=64, inline=_inline_except("rules:Rules.apply"))
     sx.on_start = _assume_not_none("expr", "X", "D")
-    sx.oracle = _Generic(lambda t: t.op == "delta" or t == sym("A"))
-    outs = sx.run(f"{FUNC}:wicks", lambda: dict(expr=build(), rules=None, simplify_kronecker_deltas=False))
+    sx.oracle = _Generic(lambda t: t.op in ("delta", "tens") or t == sym("A"))
+    sx.concrete_key = _is_index_term
+    outs = sx.run(f"{FUNC}:wicks", lambda: dict(expr=build(), rules=None, simplify_kronecker_deltas=flag))
     if not outs:
         raise AnalysisError("R01e: no path through wicks")
     for o in outs:
         if o.kind != "return":
             return f"raises {o.exc}"
-        why = _compare_numeric(o.value, holder["ops"], norb, factor=3, tensors={"A": 3})
+        if tensor is None:
+            why = _compare_numeric(o.value, holder["ops"], norb, factor=3, tensors={"A": 3})
+        else:
+            why = _compare_numeric(o.value, holder["ops"], norb, tensor=holder["tensor"])
         if why:
             return f"wicks gives {show(_term(o.value))[:200]}; {why}"
     return None
@@ -1120,14 +1407,52 @@ def r01e(ctx):
                 shown += 1
                 if shown <= 4:
                     ctx.bad(rule, w, f"A * <{label}>: {why}", key=f"string {label}")
-    # strings in which an operator (or an index) occurs more than once
+    # delta evaluation requested, target indices on the operators: the indices that sit on the tensor t are contracted,
+    # all other operator indices are target indices of the expression and must survive with their meaning
+    memo = {}
+    nd = 0
+    shown = 0
+    subsets2 = [(), (0,), (1,), (0, 1)]
+    subsets4 = [(), (0,), (1, 2)] if ctx.tier == "quick" else [(), (0,), (3,), (0, 1), (1, 2), (0, 3), (0, 1, 2, 3)]
+    for size, subsets in ((2, subsets2), (4, subsets4)):
+        for k, string in enumerate(itertools.product(dom, repeat=size)):
+            if size == 4 and not _has_pairing(string, memo) and k % 12:
+                continue
+            for sub in subsets:
+                why = _e2e(ctx, list(string), 2, tensor=sub, flag=True)
+                nd += 1
+                label = f"t_{{{','.join('x%d' % q for q in sub)}}} * <" + " ".join(f"{kd}_{sp}(x{q})" for q, (kd, sp) in enumerate(string)) + ">"
+                if why is None:
+                    ctx.ok(rule, w, f"{label} with delta evaluation equals the expectation value", key=f"deltas n={size} t{sub}")
+                else:
+                    shown += 1
+                    if shown <= 4:
+                        ctx.bad(rule, w, f"{label} with simplify_kronecker_deltas=True: {why}", key=f"deltas {label}")
+    for string, sub in (([("Fd", "general"), ("F", "general"), ("Fd", "general"), ("F", "general"), ("Fd", "general"),
+                          ("F", "general")], (1, 2)),
+                        ([("F", "general"), ("Fd", "general"), ("Fd", "occ"), ("F", "general"), ("F", "virt"), ("Fd", "general")],
+                         (0, 3, 5))):
+        why = _e2e(ctx, string, 2, tensor=sub, flag=True)
+        nd += 1
+        label = f"t_{sub} * <" + " ".join(f"{kd}_{sp}" for kd, sp in string) + ">"
+        ctx.check(rule, w, why is None, f"{label} with delta evaluation equals the expectation value",
+                  f"{label} with simplify_kronecker_deltas=True: {why}", key=f"deltas six {label}")
+    ctx.floor(rule, "operator strings evaluated end to end with delta evaluation", nd, 500)
+    # strings in which an operator (or an index) occurs more than once; adjacent identical operators are a power
     rep = [([("Fd", "occ"), ("F", "occ"), ("Fd", "occ"), ("F", "occ")], {2: 0, 3: 1}),
            ([("F", "virt"), ("Fd", "virt"), ("F", "virt"), ("Fd", "virt")], {2: 0, 3: 1}),
            ([("Fd", "general"), ("F", "general"), ("Fd", "general"), ("F", "general")], {2: 0, 3: 1}),
            ([("Fd", "general"), ("F", "general"), ("F", "general"), ("Fd", "general")], {2: 1, 3: 0}),
            ([("Fd", "occ"), ("F", "occ"), ("Fd", "occ"), ("F", "occ")], {1: ("idx", 0), 3: ("idx", 2)}),
            ([("F", "general"), ("Fd", "general"), ("Fd", "general"), ("F", "general")], {1: ("idx", 0), 3: ("idx", 2)}),
-           ([("Fd", "occ"), ("F", "occ"), ("Fd", "occ"), ("F", "occ")], {2: 0})]
+           ([("Fd", "occ"), ("F", "occ"), ("Fd", "occ"), ("F", "occ")], {2: 0}),
+           ([("F", "general"), ("F", "general")], {1: 0}),
+           ([("Fd", "occ"), ("Fd", "occ")], {1: 0}),
+           ([("F", "virt"), ("F", "virt"), ("Fd", "virt"), ("Fd", "virt")], {1: 0, 3: 2}),
+           ([("F", "virt"), ("F", "virt"), ("Fd", "virt"), ("Fd", "general")], {1: 0}),
+           ([("Fd", "occ"), ("F", "general"), ("F", "general"), ("F", "occ")], {2: 1}),
+           ([("F", "virt"), ("Fd", "virt"), ("Fd", "virt"), ("F", "virt")], {2: 1}),
+           ([("F", "general"), ("F", "general"), ("F", "general"), ("Fd", "general")], {1: 0, 2: 0})]
     if ctx.tier != "quick":
         rep.append(([("Fd", "occ"), ("F", "virt"), ("Fd", "virt"), ("F", "occ"), ("Fd", "occ"), ("F", "virt"), ("Fd", "virt"),
                      ("F", "occ")], {4: 0, 5: 1, 6: 2, 7: 3}))
@@ -1144,13 +1469,12 @@ def r01e(ctx):
                 [("Fd", "occ"), ("Fd", "occ"), ("F", "virt"), ("Fd", "virt"), ("F", "occ"), ("F", "occ")],
                 [("F", "virt"), ("F", "virt"), ("F", "virt"), ("Fd", "virt"), ("Fd", "virt"), ("Fd", "virt")],
                 [("Fd", "general"), ("F", "general"), ("Fd", "occ"), ("F", "occ"), ("F", "virt"), ("Fd", "virt")]]
-    if True:
-        for string in six:
-            why = _e2e(ctx, string, 3)
-            n += 1
-            label = " ".join(f"{k}_{s}" for k, s in string)
-            ctx.check(rule, w, why is None, f"<{label}> equals the expectation value (3+3 orbitals)", f"A * <{label}>: {why}",
-                      key=f"six {label}")
+    for string in six:
+        why = _e2e(ctx, string, 3)
+        n += 1
+        label = " ".join(f"{k}_{s}" for k, s in string)
+        ctx.check(rule, w, why is None, f"<{label}> equals the expectation value (3+3 orbitals)", f"A * <{label}>: {why}",
+                  key=f"six {label}")
     ctx.floor(rule, "operator strings evaluated end to end", n, 1500)
 
 
